@@ -1,9 +1,265 @@
 import ShpanVerif.Util.Parse
-/- Driver handler for C15 (stub: replaced when the property's model lands). -/
+import ShpanVerif.Util.Num1415
+import ShpanVerif.Model.Delta
+import ShpanVerif.Drive.C14
+/-
+Driver handler for C15 (delta / rate).  Timestamps are unix nanoseconds, optionally `t@L` (L = id of the
+Location object the harness expresses the timestamp in; the model and the observation see instants only).
+
+case :=
+  ds <i|f> | <recs>                                        timeseries.DeltaStream
+  ad <i|f> <periodNs> | <recs>                             timeseries.AlignDeltaStream, fixed UTC period
+  df <i|f|s|b|t> <+|?> <nn 0|1> <max: float bits> | <recs>           datasource.DeltaFilter
+  rt <i|f|s|b|t> <+|?> <perSeconds> <nn 0|1> <max: float bits> | <recs>   datasource.RateFilter
+obs :=
+  ds / ad : ok <recs> | err <class>
+  df / rt : ok <type> <recs with tagged values> | dataerr <type> <class> | err <class>
+  repr-dependent …   (the harness re-runs every case with all timestamps re-expressed in other locations
+                      and reports this when the observation changes)
+-/
 namespace ShpanVerif.Drive.C15
+open ShpanVerif.Util ShpanVerif.Util.N1415 ShpanVerif.Model.TsB ShpanVerif.Model.Reduce ShpanVerif.Model.Delta
+open ShpanVerif.Drive.C14 (DF Exact exactInt exactFloat ratSum ratMaxAbs fmtVal parseTagged? valRat? wireVal fmtTaggedRecs
+  parseTaggedRecs? DType.str parseDType? sortedByTime)
+
+def strictByTime {ν : Type} : List (Rec ν) → Bool
+  | [] => true
+  | [_] => true
+  | a :: b :: rest => a.ts.inst < b.ts.inst && strictByTime (b :: rest)
+
+def fmtSRes {ν : Type} (w : Wire ν) (r : SRes (Rec ν)) : String :=
+  match r.2 with
+  | some e => "err " ++ e.str
+  | none => "ok " ++ fmtRecs w r.1
+
+/-- |Σ ds − want| within the rounding of one subtraction per delta (exact for integers). -/
+def telescopes (isFloat : Bool) (ds : List Rat) (want : Rat) : Bool :=
+  let tol : Rat := if isFloat then eps52 * ratSum (ds.map ratAbs) else 0
+  ratAbs (ratSum ds - want) ≤ tol
+
+/-! ### ds -/
+
+def handleDs {ν : Type} (N : Num ν Float) (w : Wire ν) (E : Exact ν) (recsTxt obs : String) :
+    String × Bool × String :=
+  match parseRecs? w recsTxt with
+  | none => ("bad-case", false, "unparsable records")
+  | some xs =>
+    let model := fmtSRes w (deltaStream N (xs, none))
+    match words obs with
+    | ["err", cls] =>
+      let ok := !strictByTime xs && cls == "not-after"
+      (model, ok, if ok then "" else "a strictly increasing series was rejected (or wrong error)")
+    | ["ok", recs] =>
+      if !strictByTime xs then (model, false, "a series that is not strictly increasing was accepted") else
+      match parseRecs? w recs, xs.mapM (fun r => E.toRat? r.v) with
+      | some os, some vs =>
+        -- one delta per consecutive pair, stamped with the later timestamp, equal to the difference
+        let stampsOk := os.map (·.ts.inst) == (xs.drop 1).map (·.ts.inst)
+        match os.mapM (fun r => E.toRat? r.v) with
+        | none => (model, false, "non-finite delta")
+        | some ds =>
+          let pairOk := (List.zip ds (List.zip vs (vs.drop 1))).all (fun d =>
+            ratAbs (d.1 - (d.2.2 - d.2.1)) ≤ (if E.isFloat then eps52 * ratAbs (d.2.2 - d.2.1) else 0))
+          let sumOk := match vs.head?, vs.getLast? with
+            | some f, some l => telescopes E.isFloat ds (l - f)
+            | _, _ => ds.isEmpty
+          let ok := stampsOk && pairOk && sumOk
+          (model, ok, if ok then "" else s!"stamps {stampsOk} differences {pairOk} telescoping {sumOk}")
+      | _, _ => (model, false, "unparsable observation")
+    | _ => (model, false, "unexpected observation")
+
+/-! ### ad -/
+
+def handleAd {ν : Type} (N : Num ν Float) (w : Wire ν) (E : Exact ν) (d : Int) (recsTxt obs : String) :
+    String × Bool × String :=
+  match parseRecs? w recsTxt with
+  | none => ("bad-case", false, "unparsable records")
+  | some xs =>
+    let p := fixedPeriod d 0
+    let model := fmtSRes w (alignDelta N DF p xs)
+    if !strictByTime xs then (model, true, "not strictly increasing: outside the property's domain") else
+    match words obs with
+    | ["ok", recs] =>
+      match parseRecs? w recs, xs.mapM (fun r => E.toRat? r.v) with
+      | some os, some vs =>
+        match os.mapM (fun r => E.toRat? r.v), xs.head?, xs.getLast? with
+        | some ds, some f, some l =>
+          let starts := (xs.map (fun r => p.start r.ts.inst)).eraseDups
+          -- the last reading is appended at the end of its period unless it sits on a boundary / is the only instant
+          let appended := l.ts.inst != p.start l.ts.inst && l.ts.inst != f.ts.inst
+          let wantStamps := starts.drop 1 ++ (if appended then [p.end_ l.ts.inst] else [])
+          let stampsOk := os.map (·.ts.inst) == wantStamps
+          let sumOk := match vs.head?, vs.getLast? with
+            | some fv, some lv => telescopes E.isFloat ds (lv - fv)
+            | _, _ => false
+          let ok := stampsOk && sumOk
+          (model, ok, if ok then "" else s!"stamps {stampsOk} (want {wantStamps}) sum-of-deltas = last - first {sumOk}")
+        | some ds, none, _ => (model, ds.isEmpty, "empty input")
+        | _, _, _ => (model, false, "non-finite delta")
+      | _, _ => (model, false, "unparsable observation")
+    | _ => (model, false, "a time-sorted series was rejected")
+
+/-! ### df / rt -/
+
+def fmtFilterRes (r : Except Err (DType × SRes (Rec (Val Float)))) : String :=
+  match r with
+  | .error e => "err " ++ e.str
+  | .ok (t, (rows, none)) => s!"ok {DType.str t} {fmtTaggedRecs rows}"
+  | .ok (t, (_, some e)) => s!"dataerr {DType.str t} {e.str}"
+
+/-- list-level rule of the non-negative counter delta over exact values: (delta, emitted). -/
+def nnRule (maxC curr prev : Rat) : Rat × Bool :=
+  if curr < 0 then (0, false)
+  else if curr < prev then (if maxC > 0 then (maxC - prev) + curr else curr, true)
+  else (curr - prev, true)
+
+/-- The readings that produce an output under the non-negative rule (a negative reading is dropped and does not
+become the previous one), each with the expected exact delta: (timestamp, delta, isReset, prev, curr). -/
+def nnWalk (maxC : Rat) : Rat → List (Int × Rat) → List (Int × Rat × Bool)
+  | _, [] => []
+  | prev, (t, curr) :: rest =>
+    let d := nnRule maxC curr prev
+    if d.2 then (t, d.1, decide (curr < prev)) :: nnWalk maxC curr rest else nnWalk maxC prev rest
+
+def truncRat (q : Rat) : Rat := ((ratTrunc q : Int) : Rat)
+
+def handleDf (dt : DType) (req nn : Bool) (maxC : Float) (xs : List (Rec (Val Float))) (obs : String) :
+    String × Bool × String :=
+  let model := fmtFilterRes (deltaFilter DF dt req nn maxC xs)
+  let valid := dt.isNumeric && req
+  match words obs with
+  | "err" :: _ => (model, !valid, if valid then "a valid delta filter was rejected" else "")
+  | ["ok", ty, recs] =>
+    if !valid then (model, false, "an invalid delta filter was accepted") else
+    if ty != DType.str dt then (model, false, "the delta filter must keep the data type") else
+    match parseTaggedRecs? recs, xs.mapM (fun r => valRat? r.v), floatToRat? maxC with
+    | some os, some vs, some mx =>
+      match os.mapM (fun r => valRat? r.v) with
+      | none => (model, false, "non-finite delta")
+      | some ds =>
+        let typeOk := os.all (fun r => r.v.dtype == dt)
+        if !nn then
+          let stampsOk := os.map (·.ts.inst) == (xs.drop 1).map (·.ts.inst)
+          let isF := dt == .decimal
+          let pairOk := (List.zip ds (List.zip vs (vs.drop 1))).all (fun d =>
+            ratAbs (d.1 - (d.2.2 - d.2.1)) ≤ (if isF then eps52 * ratAbs (d.2.2 - d.2.1) else 0))
+          let sumOk := match vs.head?, vs.getLast? with
+            | some f, some l => telescopes isF ds (l - f)
+            | _, _ => ds.isEmpty
+          let ok := typeOk && stampsOk && pairOk && sumOk
+          (model, ok, if ok then "" else s!"type {typeOk} stamps {stampsOk} differences {pairOk} telescoping {sumOk}")
+        else
+          match vs with
+          | [] => (model, os.isEmpty, "empty input")
+          | v0 :: vrest =>
+            let want := nnWalk mx v0 (List.zip ((xs.drop 1).map (·.ts.inst)) vrest)
+            let stampsOk := os.map (·.ts.inst) == want.map (·.1)
+            -- value rule: curr - prev, or on a decrease curr / (max - prev) + curr (through float64 and back for integers)
+            let valsOk := os.length == want.length && (List.zip ds want).all (fun dw =>
+              let exact := dw.2.2.1
+              if dt == .integer then (if dw.2.2.2 then dw.1 == truncRat exact else dw.1 == exact)
+              else ratAbs (dw.1 - exact) ≤ 2 * eps52 * (ratAbs exact + ratAbs mx + ratMaxAbs vs))
+            -- the property: readings within [0, max] (within [0, ∞) without max) never yield a negative value
+            let inRange := vs.all (fun v => 0 ≤ v && (mx ≤ 0 || v ≤ mx))
+            let nonNegOk := !inRange || ds.all (fun d => 0 ≤ d)
+            let ok := typeOk && stampsOk && valsOk && nonNegOk
+            (model, ok, if ok then "" else s!"type {typeOk} stamps {stampsOk} values {valsOk} non-negative {nonNegOk}")
+    | _, _, _ => (model, false, "unparsable observation")
+  | ["dataerr", _, _] => (model, false, "the delta filter failed on well-typed data")
+  | _ => (model, false, "unexpected observation")
+
+def handleRt (dt : DType) (req : Bool) (perSeconds : Int) (nn : Bool) (maxC : Float) (xs : List (Rec (Val Float)))
+    (obs : String) : String × Bool × String :=
+  let model := fmtFilterRes (rateFilter DF dt req perSeconds nn maxC xs)
+  let valid := dt.isNumeric && req
+  if valid && !sortedByTime xs then (model, true, "unsorted input: outside the property's domain") else
+  match xs.mapM (fun r => valRat? r.v), floatToRat? maxC with
+  | some vs, some mx =>
+    let ps : Rat := if perSeconds ≤ 0 then 1 else (perSeconds : Rat)
+    -- expected outputs over exact values: (timestamp, rate) for every emitting pair; none = zero time difference
+    let rec walk (prevT : Int) (prev : Rat) : List (Int × Rat) → List (Int × Option (Rat × Rat))
+      | [] => []
+      | (t, curr) :: rest =>
+        let d : Rat × Bool := if nn then nnRule mx curr prev else (curr - prev, true)
+        if !d.2 then walk prevT prev rest
+        else if t == prevT then [(t, none)]
+        else
+          let secsQ : Rat := ((t - prevT : Int) : Rat) / 1000000000
+          (t, some (d.1 / secsQ * ps, ratAbs (ps / secsQ))) :: walk t curr rest
+    let want := match xs, vs with
+      | x0 :: xrest, v0 :: vrest => walk x0.ts.inst v0 (List.zip (xrest.map (·.ts.inst)) vrest)
+      | _, _ => []
+    let zeroDiff := want.any (fun w => w.2.isNone)
+    match words obs with
+    | "err" :: _ => (model, !valid, if valid then "a valid rate filter was rejected" else "")
+    | ["dataerr", ty, cls] =>
+      let ok := valid && zeroDiff && cls == "time-diff-zero" && ty == "decimal"
+      (model, ok, if ok then "" else "the rate filter failed without a zero time difference")
+    | ["ok", ty, recs] =>
+      if !valid then (model, false, "an invalid rate filter was accepted") else
+      if ty != "decimal" then (model, false, "a rate is a decimal") else
+      if zeroDiff then (model, false, "a zero time difference must be rejected") else
+      match parseTaggedRecs? recs with
+      | none => (model, false, "unparsable observation")
+      | some os =>
+        match os.mapM (fun r => valRat? r.v) with
+        | none => (model, false, "non-finite rate")
+        | some rs =>
+          let typeOk := os.all (fun r => r.v.dtype == .decimal)
+          let stampsOk := os.map (·.ts.inst) == want.map (·.1)
+          -- value = delta / seconds × perSeconds (4 float roundings, plus the one of the reset formula)
+          let valsOk := os.length == want.length && (List.zip rs want).all (fun rw =>
+            match rw.2.2 with
+            | some (exact, scale) => ratAbs (rw.1 - exact) ≤ 4 * eps52 * (ratAbs exact + (ratAbs mx + ratMaxAbs vs) * scale)
+            | none => false)
+          let inRange := vs.all (fun v => 0 ≤ v && (mx ≤ 0 || v ≤ mx))
+          let nonNegOk := !(nn && inRange) || rs.all (fun r => 0 ≤ r)
+          let ok := typeOk && stampsOk && valsOk && nonNegOk
+          (model, ok, if ok then "" else s!"type {typeOk} stamps {stampsOk} values {valsOk} non-negative {nonNegOk}")
+    | _ => (model, false, "unexpected observation")
+  | _, _ => (model, false, "non-finite input")
+
+def parseReq? (s : String) : Option Bool := if s == "+" then some true else if s == "?" then some false else none
+def parseBit? (s : String) : Option Bool := if s == "1" then some true else if s == "0" then some false else none
 
 /-- returns (model output, spec verdict on the observation, reason) -/
-def handle (_c _obs : String) : String × Bool × String :=
-  ("unimplemented", false, "no model yet")
+def handle (c obs : String) : String × Bool × String :=
+  if obs.startsWith "repr-dependent" then
+    ("-", false, "the observation changes when the timestamps are re-expressed in other locations")
+  else
+  match splitAt "|" (words c) with
+  | ["ds", ty] :: [[recs]] =>
+    if ty == "i" then handleDs (Num.int DF) wireInt exactInt recs obs
+    else if ty == "f" then handleDs (Num.dec DF) wireFloat exactFloat recs obs
+    else ("bad-case", false, "type")
+  | ["ad", ty, d] :: [[recs]] =>
+    match d.toInt? with
+    | some d =>
+      if d ≤ 0 then ("bad-case", false, "period") else
+      if ty == "i" then handleAd (Num.int DF) wireInt exactInt d recs obs
+      else if ty == "f" then handleAd (Num.dec DF) wireFloat exactFloat d recs obs
+      else ("bad-case", false, "type")
+    | none => ("bad-case", false, "period")
+  | ["df", ty, req, nn, mx] :: [[recs]] =>
+    match ty.toList with
+    | [c] =>
+      match parseDType? c, parseReq? req, parseBit? nn, parseFloatBits? mx with
+      | some dt, some req, some nn, some mx =>
+        match parseRecs? (wireVal dt) recs with
+        | some xs => handleDf dt req nn mx xs obs
+        | none => ("bad-case", false, "unparsable records")
+      | _, _, _, _ => ("bad-case", false, "unparsable case")
+    | _ => ("bad-case", false, "type")
+  | ["rt", ty, req, ps, nn, mx] :: [[recs]] =>
+    match ty.toList with
+    | [c] =>
+      match parseDType? c, parseReq? req, ps.toInt?, parseBit? nn, parseFloatBits? mx with
+      | some dt, some req, some ps, some nn, some mx =>
+        match parseRecs? (wireVal dt) recs with
+        | some xs => handleRt dt req ps nn mx xs obs
+        | none => ("bad-case", false, "unparsable records")
+      | _, _, _, _, _ => ("bad-case", false, "unparsable case")
+    | _ => ("bad-case", false, "type")
+  | _ => ("bad-case", false, "unknown sub-command")
 
 end ShpanVerif.Drive.C15
